@@ -83,15 +83,15 @@ theorem C14_generated_routes_cropped (dedupe : List G → List G) (polys_of : A 
 
 /-- **What the `Network(...)` route hands to `branches_and_nodes`** (`Network.__post_init__` regenerated; the call inside
 `assign_branches_nodes` checked argument by argument). With a non-empty area and topology asked for but not given:
-* `truncate_traces=True`: the traces (z-coordinates dropped on request) are cropped first -- multi-part input refused, an empty crop is a
+* `truncate_traces=True`: the COPY of the traces (z-coordinates dropped on request) are cropped first -- multi-part input refused, an empty crop is a
   ValueError -- and the CROPPED traces go to `branches_and_nodes` with `already_clipped=True`;
 * `truncate_traces=False` (not allowed with a circular target area): the traces go in as they are with `already_clipped=False`.
 By `C14_generated_routes` the two ways of getting the topology of cropped data therefore agree. -/
-theorem C14_generated_network_route {G' A' : Type} (area_is_empty : A' → Bool) (has_z : List G' → Bool) (drop_z : List G' → List G')
+theorem C14_generated_network_route {G' A' : Type} (area_is_empty : A' → Bool) (copy_ : List G' → List G') (has_z : List G' → Bool) (drop_z : List G' → List G')
     (crop_ : List G' → A' → Bool → List G') (traces : List G') (area : A') (truncate circular rz : Bool)
     (ha : area_is_empty area = false) (hc : circular = true → truncate = true) :
-    Gen.network_init area_is_empty has_z drop_z crop_ true traces area truncate circular true rz () () =
-      (let t0 := if has_z traces && rz then drop_z traces else traces
+    Gen.network_init area_is_empty copy_ has_z drop_z crop_ true traces area truncate circular true rz () () =
+      (let t0 := if has_z (copy_ traces) && rz then drop_z (copy_ traces) else copy_ traces
        if truncate then
          (if (crop_ t0 area false).length = 0 then .error "ValueError"
           else .ok (crop_ t0 area false, some (some (crop_ t0 area false, true))))
@@ -102,9 +102,9 @@ theorem C14_generated_network_route {G' A' : Type} (area_is_empty : A' → Bool)
   | true =>
     have ht : truncate = true := hc rfl
     subst ht
-    cases has_z traces <;> cases rz <;> simp
+    cases has_z (copy_ traces) <;> cases rz <;> simp
   | false =>
-    cases truncate <;> cases has_z traces <;> cases rz <;> simp
+    cases truncate <;> cases has_z (copy_ traces) <;> cases rz <;> simp
 
 end Routes
 
